@@ -19,7 +19,7 @@ Well-formedness (node list <-> membership bijection etc.) is a data-structure in
 (function entry, loop head, call return) and is preserved by construction by every model.
 """
 import z3
-from .types import (TInt, TReal, TBool, TStr, TList, TTuple, TGraph, TOpaque, Val, fresh_name)
+from .types import (TInt, TReal, TBool, TStr, TList, TTuple, TDict, TGraph, TOpaque, Val, fresh_name)
 
 INT = z3.IntSort()
 BOOL = z3.BoolSort()
@@ -40,6 +40,9 @@ NODE_SCHEMAS = {
         'graph': ('graph', TGraph('mol')), 'mapping': ('mapping', T_MAPPING), 'position': ('position', TReal),
         'ez_isomer_atoms': ('ez_isomer_atoms', TTuple(TInt, TInt)), 'single_h_frag': ('single_h_frag', TBool),
         'order': ('order_n', TReal),
+        # networkx.contracted_nodes stores the removed node's attribute dict under ['contraction'][removed]; only the two
+        # entries the squash operator reads are modelled: removed node -> its fragid list / its mapping list
+        'contraction': ('contraction', TTuple(TDict(TInt, T_LINT), TDict(TInt, T_MAPPING))),
     },
 }
 NODE_SCHEMAS['tmpl'] = dict(NODE_SCHEMAS['mol'])
